@@ -2,11 +2,15 @@ import FcpModel
 /-!
 # C20 — module imports are transparent
 
-Partial in one respect, stated in the theorem: the moved declarations form a *prefix* of the
-file (a prefix is always closed under declare-before-use), recursively to any import depth.
-Moving an arbitrary declare-before-use-closed subset needs a frame lemma (elaboration of a
-self-contained block does not depend on what precedes it) that holds only when type names do
-not clash; it is exercised by the harness but not proved.
+`C20_split_general`: a file may import any number of modules at any positions between its
+own declarations, each module again split the same way to any depth (`Split2`).  Each moved
+block is self-contained — it refers to no type name declared before it outside the module
+(`hfresh`), which is what being a module means, since a module sees only its own
+declarations.  Then loading the root gives the same tree as the single file, and fails
+exactly when the single file fails.  The proof rests on a frame lemma (`foldDecls_frame`:
+after a context whose type names a block does not mention, the block elaborates to the
+context merged with its own result).  `C20_split_partial` is the earlier special case (one
+module at the top of the file), kept because it needs no freshness hypothesis.
 -/
 namespace Fcp
 open Syntax Frontend
@@ -21,6 +25,48 @@ theorem C20_split_partial (fs : FS) (n : Nat) (path : List String) (vl vl2 : Nat
     (elabFile (loadFile fs fuel) fs path ⟨"3", vl, ds⟩).toOption =
       (elabFile l2 fs2 p2 ⟨"3", vl2, flat⟩).toOption :=
   split_equiv fs n path vl vl2 ds flat h fuel hf l2 fs2 p2
+
+/-- **C20 (general position, any number of modules, any depth)** -/
+theorem C20_split_general (fs : FS) (n : Nat) (path : List String) (vl vl2 : Nat) (ds flat : List PDecl)
+    (h : Split2 fs n path [] ds flat) (fuel : Nat) (hf : n ≤ fuel)
+    (l2 : List String → String → Except Err Tree) (fs2 : FS) (p2 : List String) :
+    (elabFile (loadFile fs fuel) fs path ⟨"3", vl, ds⟩).toOption =
+      (elabFile l2 fs2 p2 ⟨"3", vl2, flat⟩).toOption :=
+  split2_equiv fs n path vl vl2 ds flat h fuel hf l2 fs2 p2
+
+/-- the frame property behind it: a `mod`-free block that mentions none of the context's type
+names elaborates, after the context, to the context merged with its own result -/
+theorem C20_frame (l : List String → String → Except Err Tree) (fs : FS) (p : List String) (T : Tree)
+    (ds : List PDecl) (hm : ModFree ds) (hf : Fresh T ds) (t : Tree) (e : Option Err) :
+    foldDecls l fs p ⟨T.merge t, e⟩ ds =
+      ⟨T.merge (foldDecls l fs p ⟨t, e⟩ ds).tree, (foldDecls l fs p ⟨t, e⟩ ds).firstErr⟩ :=
+  foldDecls_frame l fs p T ds hm hf t e
+
+/-- the premises combine: a struct, then a module holding an enum and a struct that uses it,
+then a binding — given that the module file reads and parses as stated -/
+example (fs : FS) (src : String) (vl : Nat)
+    (hread : fs.read (modTarget ["main.fcp"] ["lib", "m"]) = some src)
+    (hparse : parseText src = .ok ⟨"3", vl,
+      [.enum "E" [("A", .num "0", 2)] 2, .struct "B" [⟨"e", "0", .named "E" 3, [], 3⟩] 3]⟩) :
+    Split2 fs 1 ["main.fcp"] []
+      [.struct "A" [⟨"x", "0", .u 8, [], 2⟩] 2, .mod ["lib", "m"] 3, .impl "can" "A" none [.field "id" (.num "1")] 4]
+      ([.struct "A" [⟨"x", "0", .u 8, [], 2⟩] 2] ++
+       ([.enum "E" [("A", .num "0", 2)] 2, .struct "B" [⟨"e", "0", .named "E" 3, [], 3⟩] 3] ++
+        [.impl "can" "A" none [.field "id" (.num "1")] 4])) := by
+  refine .decl _ _ _ _ _ _ rfl ?_
+  refine .mod 0 _ _ ["lib", "m"] 3 vl src
+    [.enum "E" [("A", .num "0", 2)] 2, .struct "B" [⟨"e", "0", .named "E" 3, [], 3⟩] 3]
+    [.enum "E" [("A", .num "0", 2)] 2, .struct "B" [⟨"e", "0", .named "E" 3, [], 3⟩] 3]
+    [.impl "can" "A" none [.field "id" (.num "1")] 4] [.impl "can" "A" none [.field "id" (.num "1")] 4] hread hparse
+    (.decl _ _ _ _ _ _ rfl (.decl _ _ _ _ _ _ rfl (.nil _ _ _))) ?_ ?_
+  · intro d hd x hx
+    simp only [List.mem_cons, List.not_mem_nil, or_false] at hd
+    rcases hd with rfl | rfl
+    · simp [declRefs] at hx
+    · simp only [declRefs, tyRefs, List.flatMap_cons, List.flatMap_nil, List.append_nil, List.mem_singleton] at hx
+      subst hx
+      simp [declNames, declName]
+  · exact .decl _ _ _ _ _ _ rfl (.nil _ _ _)
 
 /-- `mod a.b.c;` in the file `dir/x.fcp` names the file `dir/a/b/c.fcp` -/
 theorem C20_path (dir : List String) (x : String) :
